@@ -24,17 +24,23 @@ def fmt(v):
     return repr(float(v)) if not float(v).is_integer() or abs(v) >= 1e15 else str(int(v))
 
 
-def xml_of(tr):
+def xml_of(tr, style=0):
+    """style varies what a loader must not care about: a sid attribute, the white space between the numbers"""
     k = tr[0]
     if k == 'translate' or k == 'scale':
-        return '<%s>%s</%s>' % (k, ' '.join(fmt(v) for v in tr[1:4]), k)
-    if k == 'rotate':
-        return '<rotate>%s</rotate>' % ' '.join(fmt(v) for v in tr[1:5])
-    if k == 'matrix':
-        return '<matrix>%s</matrix>' % ' '.join(fmt(v) for v in tr[1])
-    if k == 'lookat':
-        return '<lookat>%s</lookat>' % ' '.join(fmt(v) for v in tr[1] + tr[2] + tr[3])
-    raise ValueError(k)
+        vals = tr[1:4]
+    elif k == 'rotate':
+        vals = tr[1:5]
+    elif k == 'matrix':
+        vals = tr[1]
+    elif k == 'lookat':
+        vals = tr[1] + tr[2] + tr[3]
+    else:
+        raise ValueError(k)
+    sep = [' ', ' ', '\n', '  ', '\t'][style % 5]
+    pad = ['', '', ' ', '\n'][style % 4]
+    sid = ' sid="%s%d"' % (k, style) if style % 3 == 1 else ''
+    return '<%s%s>%s%s%s</%s>' % (k, sid, pad, sep.join(fmt(v) for v in vals), pad, k)
 
 
 def construct(tr, form):
@@ -126,8 +132,9 @@ def check_transform(tr, M, site):
     return None
 
 
-def frob(M):
-    return max(1.0, float(numpy.sqrt(numpy.sum(numpy.asarray(M, dtype=numpy.float64) ** 2))))
+def size(M):
+    """spectral norm (>= 1): rotations do not inflate the tolerance of a long product"""
+    return max(1.0, float(numpy.linalg.norm(numpy.asarray(M, dtype=numpy.float64), 2)))
 
 
 def product(mats):
@@ -139,9 +146,10 @@ def product(mats):
 
 def check_product(node_matrix, mats, clause, what):
     P = product(mats)
-    tol = 3e-5
+    # float32 storage and products: a few 1e-7 per factor, relative to the product of the factors' norms
+    tol = 1e-5 * (3 + len(mats))
     for m in mats:
-        tol *= frob(m)
+        tol *= size(m)
     if not close(node_matrix, P, tol):
         return (clause, '%s: node.matrix = %r, product of the %d transform matrices in listed order = %r'
                 % (what, numpy.asarray(node_matrix).tolist(), len(mats), P.tolist()))
@@ -197,7 +205,8 @@ def run_case(case):
             fails.append({'clause': clause, 'site': where or site, 'detail': detail[:1500]})
 
     nest = case.get('nest', 0)      # 0: scene root; 1: child of a scene root; 2: library node instantiated in the scene
-    inner = '<node id="n" name="n">\n' + '\n'.join(xml_of(t) for t in case['init']) + '\n' + CHILD + '</node>\n'
+    inner = ('<node id="n" name="n">\n' + '\n'.join(xml_of(t, form + i) for i, t in enumerate(case['init'])) + '\n' + CHILD +
+             '</node>\n')
     if mode == 'L':
         if nest == 0:
             body = LIBS_OPEN + inner + LIBS_CLOSE
@@ -243,44 +252,55 @@ def run_case(case):
         fail(w[0], w[1])
     obs = {'init': ints(node.matrix)}
     # ---- edit history, then save()
-    final = list(case['init'])
-    for e in case['edits']:      # the plain-list reference for the descriptors
-        try:
-            if e[0] == 'append':
-                final.append(e[1])
-            elif e[0] == 'insert':
-                final.insert(e[1], e[2])
-            elif e[0] == 'delete':
-                del final[e[1]]
-            elif e[0] == 'replace':
-                final[e[1]] = e[2]
-            elif e[0] == 'reverse':
-                final.reverse()
-            elif e[0] == 'clear':
-                final = []
-        except IndexError:
-            pass
-    apply_edits(node, case['edits'], form)
-    if case.get('save_via') == 'doc':
-        doc.save()
-    elif nest == 1:
-        top.save()           # saving the parent saves (and recomputes) the nodes below it
-    else:
-        node.save()
-    mats = [t.matrix for t in node.transforms]
-    if len(mats) != len(final):
-        fail('save-recomputes', 'after the edits the node has %d transforms, a plain list has %d' % (len(mats), len(final)))
-    else:
-        for tr, t in zip(final, node.transforms):
-            w = check_transform(tr, t.matrix, site)
+    def plain(final, edits):     # the plain-list reference for the descriptors
+        final = list(final)
+        for e in edits:
+            try:
+                if e[0] == 'append':
+                    final.append(e[1])
+                elif e[0] == 'insert':
+                    final.insert(e[1], e[2])
+                elif e[0] == 'delete':
+                    del final[e[1]]
+                elif e[0] == 'replace':
+                    final[e[1]] = e[2]
+                elif e[0] == 'reverse':
+                    final.reverse()
+                elif e[0] == 'clear':
+                    final = []
+            except IndexError:
+                pass
+        return final
+
+    def phase(final, edits, label, key_m, key_s):
+        """edit node.transforms, save, and hold the result against the edited list"""
+        final = plain(final, edits)
+        apply_edits(node, edits, form)
+        if case.get('save_via') == 'doc':
+            doc.save()
+        elif nest == 1:
+            top.save()           # saving the parent saves (and recomputes) the nodes below it
+        else:
+            node.save()
+        mats = [t.matrix for t in node.transforms]
+        if len(mats) != len(final):
+            fail('save-recomputes', '%s: the node has %d transforms, a plain list has %d' % (label, len(mats), len(final)))
+        else:
+            for tr, t in zip(final, node.transforms):
+                w = check_transform(tr, t.matrix, site)
+                if w:
+                    fail(w[0], w[1])
+            w = check_product(node.matrix, [ref_or(tr, t) for tr, t in zip(final, node.transforms)], 'save-recomputes', label)
             if w:
-                fail(w[0], w[1])
-        w = check_product(node.matrix, [ref_or(tr, t) for tr, t in zip(final, node.transforms)], 'save-recomputes',
-                          'after %d edit(s) and save()' % len(case['edits']))
-        if w:
-            fail(w[0], w[1], 'save')
-    obs['mats'] = [ints(m) for m in mats]
-    obs['saved'] = ints(node.matrix)
+                fail(w[0], w[1], 'save')
+        obs[key_m] = [ints(m) for m in mats]
+        obs[key_s] = ints(node.matrix)
+        return final
+    final = phase(case['init'], case['edits'], 'after %d edit(s) and save()' % len(case['edits']), 'mats', 'saved')
+    # a second round of edits and a second save (saves may come anywhere in a history)
+    edits2 = case.get('edits2') or []
+    final = phase(final, edits2, 'after %d edit(s), save(), %d more edit(s) and a second save()' % (len(case['edits']), len(edits2)),
+                  'mats2', 'saved2')
     # ---- write, load again
     buf = io.BytesIO()
     doc.write(buf)
@@ -291,7 +311,7 @@ def run_case(case):
              'reload')
     else:
         w = check_product(node2.matrix, [ref_or(tr, t) for tr, t in zip(final, node.transforms)], 'save-recomputes',
-                          'written and loaded again after %d edit(s)' % len(case['edits']))
+                          'written and loaded again after %d + %d edit(s)' % (len(case['edits']), len(edits2)))
         if w:
             fail(w[0], w[1], 'reload')
     obs['reloaded'] = ints(node2.matrix)
